@@ -241,6 +241,10 @@ func (g *gen) plan(b *bias, resIdx, nRes int, vary string) RespPlan {
 	if g.chance(b.pDateOdd) {
 		p.DateMode = pick(g, "skew", "skew", "absent", "invalid")
 		p.DateSkew = pick(g, int64(-3600), -60, -5, -1, 1, 5, 60, 3600)
+		if g.chance(b.pHuge * 3) {
+			// an origin clock that is centuries off (still a valid HTTP-date)
+			p.DateSkew = pick(g, int64(-9300000000), -12000000000, -2147483648, 9300000000, 2147483648)
+		}
 	}
 	if g.chance(b.pValidator) {
 		p.ETag = pick(g, "strong", "strong", "weak")
